@@ -444,8 +444,8 @@ func eqVal(a, b SVal) string {
 // prelude): element addresses built this way give quantified clauses over s[k] a trigger that
 // matches whatever normal form the index expression has.
 func idx(a, b string) string {
-	if b == "0" {
-		return sx("idx", a, "0")
+	if isLit(b) {
+		return add(a, b) // constant offsets need no trigger and keep store/select chains simple
 	}
 	return sx("idx", a, b)
 }
